@@ -106,6 +106,32 @@ def _breakdown(rng, n):
     return None
 
 
+def _plain_breakdown(rng, n):
+    """Non-singular, the first pivot is fine, but a later leading principal minor vanishes: elimination WITHOUT row exchanges
+    meets an exactly zero pivot - which floating point arithmetic turns into rounding noise when the multipliers are inexact
+    (rows like [13, 13, ...] and [15, 15, ...])."""
+    for _ in range(400):
+        a = _ints(rng, n, n, -15, 15)
+        if a[0][0] == 0:
+            continue
+        fa = R.frm(a)
+        if R.det(fa) == 0:
+            continue
+        if R.min_abs_pivot(fa) == 0:
+            return a
+        # force a vanishing 2 x 2 leading minor: second row = multiple of the first in its first two entries
+        if n >= 3 and a[0][1] != 0:
+            m_ = rng.pick([2, 3, 5, 7, 11, 13])
+            b = [list(r) for r in a]
+            b[1][0], b[1][1] = b[0][0] + m_, (b[0][1] * (b[0][0] + m_))
+            if b[1][1] % b[0][0] == 0:
+                b[1][1] //= b[0][0]
+                fb = R.frm(b)
+                if R.det(fb) != 0 and R.min_abs_pivot(fb) == 0:
+                    return b
+    return None
+
+
 def _scale(rng, a):
     if rng.chance(0.15):
         # the same matrix in other units: an exact power-of-two factor (every quotient and product the solver forms is scaled
@@ -124,8 +150,14 @@ def _matrix(rng, routine, sizes):
     """Returns (A, mclass, n)."""
     n = rng.pick(sizes)
     pivoted = routine in ("lu_factor", "matrix_inverse", "matrix_determinant", "matrix_pivot")
+    if routine == "lu_solve" and rng.chance(0.3):
+        # "whenever the LU solvers return a result for a non-singular matrix it satisfies A x = b": also for matrices whose
+        # leading principal minors vanish (the solver may refuse them - it must not return something else)
+        pivoted = True
     classes = [("dominant", 4), ("colloc", 3), ("general", 3)]
-    if pivoted:
+    if pivoted and routine == "lu_solve":
+        classes = [("dominant_perm", 2), ("general_swap", 3), ("breakdown", 4)]
+    elif pivoted:
         classes += [("dominant_perm", 5), ("general_swap", 2), ("breakdown", 0.4)]
     mclass = rng.weighted(classes)
     if mclass == "colloc":
@@ -143,6 +175,12 @@ def _matrix(rng, routine, sizes):
         else:
             mclass = "dominant"
         return _scale(rng, a), mclass, n
+    if mclass == "breakdown" and routine == "lu_solve":
+        n = min(max(n, 3), 5)
+        a = _plain_breakdown(rng, n)
+        if a is not None:
+            return a, mclass, n
+        mclass = "general"
     if mclass == "breakdown":
         n = min(max(n, 3), 4)
         a = _breakdown(rng, n)
@@ -244,6 +282,8 @@ def gen(prop, stream, tier, avoid):
             if "breakdown" in avoid and mclass == "breakdown":
                 a, mclass = _dominant(rng, n), "dominant"
             op = {"op": r, "A": a, "mclass": mclass, "n": n, "uid": len(ops)}
+            if rng.chance(0.15):
+                op["seq"] = "tuple"          # documented input type: list, tuple
             if prev and rng.chance(held_p):
                 # the caller keeps its matrix in a variable and hands the same object to another routine (or the same one again)
                 plain_ok = ("dominant", "colloc", "general")
@@ -332,6 +372,9 @@ def gen(prop, stream, tier, avoid):
                 op["start"] = a
                 op["stop"] = a + rng.randint(1, 64) / 8.0
                 op["num"] = rng.randint(2, 40)
+                if rng.chance(0.25):
+                    # a short interval (a parametric range in small units), possibly descending
+                    op["stop"] = a + rng.pick([1, 3, 5]) * rng.pick([2.0 ** -20, 2.0 ** -24, 2.0 ** -27, 2.0 ** -30]) * rng.pick([1, 1, -1])
             ops.append(op)
     return {"knobs": knobs, "ops": ops}
 
@@ -361,6 +404,8 @@ def _call(op):
     """The raw library call for an op (used both in the history and in the pristine twin)."""
     L = _linalg
     k = op["op"]
+    if op.get("seq") == "tuple" and op.get("held_from") is None and "A" in op:
+        op = dict(op, A=tuple(tuple(r) for r in op["A"]))
     if k == "lu_solve":
         return L.lu_solve(op["A"], op["b"])
     if k == "lu_factor":
@@ -654,6 +699,6 @@ def run(script, ctx):
         elif k == "linspace":
             a, b, num = op["start"], op["stop"], op["num"]
             ex = [a + (b - a) * t / (num - 1) for t in range(num)]
-            if len(res) != num or any(abs(x - y) > 1e-9 * max(1.0, abs(a), abs(b)) for x, y in zip(res, ex)):
+            if len(res) != num or any(abs(x - y) > 1e-9 * max(abs(b - a), 1e-9 * max(1.0, abs(a), abs(b))) for x, y in zip(res, ex)):
                 ctx.fail("wrong_result", "linspace(%r,%r,%d) = %r" % (a, b, num, res), **sig)
         ctx.state("%s:%s" % (k, mclass))
